@@ -176,6 +176,10 @@ func (fr *Frame) trustedCall(st *State, fn *ssa.Function, args []Val, resT types
 		b := g.declare("trB", g.idxSort())
 		g.assume(and(g.idxLe(g.idxConst(0), a), g.idxLe(a, b), g.idxLe(b, "(str_len "+s+")")))
 		return Val{T: types.Typ[types.String], S: g.define("trim", "Str", "(mk_str (str_arr "+s+") "+g.idxAdd("(str_off "+s+")", a)+" "+g.idxSub(b, a)+")")}, true
+	case "regexp.(*Regexp).MatchString":
+		g.note("trusted: (*regexp.Regexp).MatchString is a deterministic predicate of (regexp, string) (uninterpreted re_match)")
+		g.needReMatch = true
+		return Val{T: types.Typ[types.Bool], S: "(re_match " + args[0].S + " " + args[1].S + ")"}, true
 	case "strings.Contains", "strings.ContainsRune", "strings.HasSuffix", "strings.EqualFold", "errors.Is":
 		g.note("trusted: " + name + " is a pure predicate (result unconstrained)")
 		return g.havocVal("pred", types.Typ[types.Bool]), true
@@ -222,6 +226,12 @@ func (g *Gen) constOfArg(v Val) (int64, bool) {
 
 func (g *Gen) trustedDecls() string {
 	var b strings.Builder
+	if g.needI2F {
+		b.WriteString("(declare-fun i2f64 (Int) (_ FloatingPoint 11 53))\n(declare-fun i2f32 (Int) (_ FloatingPoint 8 24))\n")
+	}
+	if g.needReMatch {
+		b.WriteString("(declare-fun re_match (Int Str) Bool)\n")
+	}
 	if g.needStrEq {
 		b.WriteString("(declare-fun str_eq (Str Str) Bool)\n")
 	}
